@@ -3,6 +3,7 @@ from common import *
 
 META = {
     'level': 'other',
+    'configs': ['gui'],        # the receive thread lives in the GUI binary: only the mstsc-rs feature build contains it
     'explanation': 'CFG analysis of the receive-thread closure of the GUI binary (launch_rdp_thread::{closure#0}) and of the '
                    'library functions it relies on, on the MIR of the current tree: (R20.1) from the Err edge of '
                    'RdpClient::read\'s result the loop cannot be re-entered, for every error variant; (R20.2) the MutexGuard is '
